@@ -295,7 +295,28 @@ func c02MaxSizeValues() []m.Packet {
 	tw := &m.TWCC{Sender: 1, Media: 2, StatusCount: 1, Chunks: make([]m.TWCCChunk, 131062)}
 	tw.Chunks[131061] = m.TWCCChunk{Symbol: 0, Run: 1}
 	gen.FixTWCCHeader(tw, false)
+	// the same limit reached with as many elements as possible instead of as large ones
+	manyBlocks := &m.XR{Sender: 2}
+	for i := 0; i < 65534; i++ { // 65534 empty unknown blocks of one word each = 262144 octets
+		manyBlocks.Blocks = append(manyBlocks.Blocks, m.XRBlock{BT: uint8(100 + i%100), TypeSpecific: uint8(i)})
+	}
+	rle := m.XRBlock{BT: m.XRLossRLE, T: 3, SSRC: 5, BeginSeq: 1, EndSeq: 2, Chunks: make([]uint16, 131062)} // 12 + 2n octets
+	for i := range rle.Chunks {
+		rle.Chunks[i] = uint16(i*7 + 1)
+	}
+	dlrr := m.XRBlock{BT: m.XRDLRR}
+	for i := 0; i < 21844; i++ { // 4 + 12n octets: 262140 with the header
+		dlrr.Subs = append(dlrr.Subs, m.DLRRSub{SSRC: uint32(i), LastRR: uint32(i) * 3, DLRR: uint32(i) * 5})
+	}
+	emptyBlocks := &m.CCFB{Sender: 1, Timestamp: 9}
+	for i := 0; i < 32766; i++ { // 12 + 8n octets: 262140
+		emptyBlocks.Blocks = append(emptyBlocks.Blocks, m.CCFBBlock{SSRC: uint32(i), BeginSeq: uint16(i)})
+	}
 	return []m.Packet{
+		{Kind: m.KXR, XR: manyBlocks},
+		{Kind: m.KXR, XR: &m.XR{Sender: 2, Blocks: []m.XRBlock{rle}}},
+		{Kind: m.KXR, XR: &m.XR{Sender: 2, Blocks: []m.XRBlock{dlrr}}},
+		{Kind: m.KCCFB, CCFB: emptyBlocks},
 		{Kind: m.KCCFB, CCFB: ccfb},
 		{Kind: m.KSDES, SDES: &m.SDES{Chunks: []m.SDESChunk{chunk}}},
 		{Kind: m.KFIR, FIR: fir},
